@@ -203,6 +203,10 @@ func TestC14(t *testing.T) {
 		// an unlimited consumer
 		lc.Limits = append(lc.Limits, limitGrid...)
 		probe, _, _ := measureNeed(c)
+		if fuzzNoExpensive && len(probe) > 2 {
+			// (under the native fuzzer one execution has 10 s: fewer limits)
+			probe = probe[len(probe)-2:]
+		}
 		for _, n := range probe {
 			for _, d := range []int64{-64, -1, 0, 1, 64} {
 				if v := n + d; v >= 0 {
